@@ -21,6 +21,7 @@ type propInfo struct {
 	Oracles     []string
 	Assumptions []string
 	Components  map[string]string
+	Also        *propInfo // a second engine that also decides this property
 }
 
 func (p *propInfo) perRun() time.Duration {
@@ -106,6 +107,10 @@ func init() {
 		if p.Level == "" {
 			p.Level = "exploration"
 		}
+		if existing, ok := props[id]; ok {
+			existing.Also = p
+			continue
+		}
 		props[id] = p
 	}
 	for _, p := range props {
@@ -161,6 +166,8 @@ var propsB = map[string]*propInfo{
 		Oracles: []string{"C16.answered", "C16.server-alive", "C16.refused-changes-nothing", "C16.client-survives"}},
 	"C17": {Rule: sprintf(ruleB, "a request crossed collections or a collection was reset"),
 		Oracles: []string{"C17.foreign-refused", "C17.same-key-independent", "C17.distinct-numbers", "C17.reset-exact"}},
+	"C19": {Rule: sprintf(ruleB, "at least one REST PatchDocument was sent (absent key, existing document with and without stored snapshot, interleaved with client pushes)"),
+		Oracles: []string{"C19.rest-response-equals-target", "C19.rest-ops-appended (replay of the stored log equals the target; C06 log invariants)", "C19.subscribers-converge", "C19.rest-refuses-non-document"}},
 	"C18": {Rule: sprintf(ruleB, "at least one committing push was matched against the broker's publishes"),
 		Oracles: []string{"C18.one-publish-per-commit", "C18.no-publish-without-commit", "C18.realtime-converges", "C18.own-notification-ignored"}},
 }
